@@ -102,7 +102,7 @@ def escapeTable : List Name := [
   "trait".toList,
   "true".toList,
   "type".toList,
-  "unsafe".toList,
+  ['u', 'n', 's', 'a', 'f', 'e'],
   "use".toList,
   "where".toList,
   "while".toList,
@@ -162,7 +162,7 @@ def synReject : List Name := [
   "try".toList,
   "type".toList,
   "typeof".toList,
-  "unsafe".toList,
+  ['u', 'n', 's', 'a', 'f', 'e'],
   "unsized".toList,
   "use".toList,
   "virtual".toList,
